@@ -575,7 +575,9 @@ func mergeArray(dest map[string]interface{}, src reflect.Value) error {
 // Spread (golint)
 func Spread(v reflect.Value) (interface{}, error) {
 
-	var results []interface{}
+	// Note that the results must not be a nil slice. A nil
+	// slice is encoded as JSON null instead of an empty array.
+	results := []interface{}{}
 
 	switch {
 	case jtypes.IsMap(v):
